@@ -173,5 +173,5 @@ Theorem type_frozen_after_digest st v d :
   pr_digest st = Some d -> snd (set_opt st (SetType v)) = false.
 Proof.
   intros Hd. unfold set_opt. destruct (0 <? pr_err st)%N; [reflexivity|].
-  destruct (v <? 0); [reflexivity|]. rewrite Hd. reflexivity.
+  destruct (v <? 0); [reflexivity|]. destruct (2147483647 <? v); [reflexivity|]. rewrite Hd. reflexivity.
 Qed.
